@@ -14,7 +14,7 @@ RULE = (
     'statement-level schedules with a yield point inside the critical section; oracle = an independent witness of '
     'enter/exit events: concurrent holders <= 1 (Lock, RLock) or <= value; refusal probes: RLock.release by a thread '
     'that does not hold it or at depth 0 and BoundedSemaphore.release at full value raise AssertionError and change '
-    'nothing; bounded liveness: all contenders finish within 50x the uncontended step count under the fair tail. '
+    'nothing (RLock contenders may also attempt such refused releases between their loops); bounded liveness: all contenders finish within 50x the uncontended step count under the fair tail. '
     'non-trivial = some contender had to wait (slept) while the resource was held; distinct by SHA-1 of the case'
 )
 ASSUMPTIONS = [
